@@ -42,7 +42,9 @@ def hp_seconds(h):
     if abs(h) >= 8192:
         # a double holds fewer than 12 decimals from 8192 on: this reader (and the notation) is not defined there;
         # the properties stop at 720 deg (validated independently up to 8191 deg)
-        raise HarnessError("angle_ref.hp_seconds is only defined below 8192 degrees (got %r)" % (h,))
+        # the harness never generates such a value (the properties stop at 720 deg), so it can only be something the library
+        # returned for an angle below 720 deg: not that angle, whatever its digits say
+        raise InvalidHP("HP value %r is beyond 8192 degrees: it cannot denote an angle of the properties' domain" % (h,))
     neg, d, m, s = hp_fields(h)
     if m >= 60 or s >= 60:
         raise InvalidHP("HP value %r has fields %d deg %d min %s sec" % (h, d, m, float(s)))
